@@ -1219,7 +1219,7 @@ def check_soc(cfg, seed=0, max_regs=None, max_words=None):
         if init is not None:
             data = bytes(init["bytes"])
             nwd = (len(data) + 3) // 4
-            for w in range(nwd + 1):
+            for w in range(min(nwd + 1, rc["size"] // 4)):
                 val, hits = do_access(base + 4 * w, 0)
                 chunk = data[4 * w:4 * w + 4].ljust(4, b"\0")
                 want = int.from_bytes(chunk, "little" if init["endianness"] == "little" else "big")
